@@ -53,7 +53,7 @@ m = {
    "level_claimed":{"category":checks[c]["cat"],"text":checks[c]["text"],"design_ref":checks[c]["ref"]},
    "level_note":checks[c]["note"],"technique":checks[c]["tech"]} for c in claimed],
  "not_applicable":[{"property_id":k,"reason":v} for k,v in sorted({**na,**pending}.items())],
- "notes":"See DESIGN.md (section 15 for what was built and found). ./check exits 2 for harness errors (build failure, stuck reach probe, stuck generator, nondeterminism, failures that depend on execution history and cannot be replayed), never confused with a verdict. A process death or a stall inside the code under test is attributed to a run and reported as a VIOLATION (rules R0-process-survives / R0-operation-returns). Fixes of genuine defects found by these checks are the nine 'fix:' commits in /repo, listed in known-findings.json under 'fixed'; the two open known findings (C17, serde_json Value route) print KNOWN-FINDING lines. seeded/ holds 155 independently written property-breaking changes with SENSITIVITY.md recording which rule catches each."
+ "notes":"See DESIGN.md (section 15 for what was built and found). ./check exits 2 for harness errors (build failure, stuck reach probe, stuck generator, nondeterminism, failures that depend on execution history and cannot be replayed), never confused with a verdict. A process death or a stall inside the code under test is attributed to a run and reported as a VIOLATION (rules R0-process-survives / R0-operation-returns). Fixes of genuine defects found by these checks are the eight 'fix:' commits in /repo, listed in known-findings.json under 'fixed'; the two open known findings (C17, serde_json Value route) print KNOWN-FINDING lines. seeded/ holds 155 independently written property-breaking changes with SENSITIVITY.md recording which rule catches each."
 }
 json.dump(m,open(os.path.join(HERE,'MANIFEST.json'),'w'),indent=1)
 print("claimed:",claimed)
